@@ -320,6 +320,9 @@ func (r *Run) writeEvidence(pd *propertyDef, total, discharged, nfail int, exclu
 	}
 	sort.Strings(assume)
 	assume = dedup(assume)
+	if assume == nil {
+		assume = []string{}
+	}
 	var exNames, knNames []string
 	for _, ob := range excluded {
 		exNames = append(exNames, ob.Name)
